@@ -33,7 +33,9 @@ pub enum Case {
     #[serde(rename = "roundtrip")]
     RoundTrip { parts: Vec<PartSpec>, boundary: String },
     #[serde(rename = "browser")]
-    Browser { parts: Vec<PartSpec>, boundary: String },
+    Browser { parts: Vec<PartSpec>, boundary: String,
+        /// what follows the colon of a part header line: 0 ": " (what browsers write), 1 nothing, 2 a tab, 3 two blanks (RFC 7230 optional whitespace)
+        #[serde(default)] sep: u8 },
     #[serde(rename = "negative")]
     Negative { parts: Vec<PartSpec>, boundary: String, what: u8, cut: u16 },
     #[serde(rename = "echo")]
@@ -68,6 +70,7 @@ fn header_strategy() -> impl Strategy<Value = (String, String)> {
         4 => ("[a-z]{1,8}", proptest::option::of("[A-Za-z0-9._]{1,12}")).prop_map(|(n, f)| ("Content-Disposition".to_string(), match f { Some(f) => format!("form-data; name=\"{}\"; filename=\"{}\"", n, f), None => format!("form-data; name=\"{}\"", n) })),
         2 => prop::sample::select(vec!["text/plain", "application/octet-stream", "image/png", "text/plain; charset=utf-8"]).prop_map(|v| ("Content-Type".to_string(), v.to_string())),
         2 => ("[A-Za-z][A-Za-z0-9-]{0,15}", "[!-~]([ -~]{0,30}[!-~])?"),
+        1 => ("[A-Za-z][A-Za-z0-9-]{0,15}", Just(String::new())),
         // non-ASCII file names, long values (lengths around 64 .. 8192, single- and multi-byte characters)
         1 => ("[a-z]{1,8}", prop::sample::select(vec!["résumé.pdf", "日本語.txt", "a b.txt", "😀.png", "naïve (1).doc"])).prop_map(|(n, f)| ("Content-Disposition".to_string(), format!("form-data; name=\"{}\"; filename=\"{}\"", n, f))),
         1 => ("[A-Za-z][A-Za-z0-9-]{0,15}", crate::fw::greq::long_text().prop_map(|b| String::from_utf8_lossy(&b.0).trim().to_string()).prop_filter("empty", |s| !s.is_empty())),
@@ -178,17 +181,19 @@ pub fn eval(ctx: &Ctx, case: &Case) -> Verdict {
             };
             ctx.judge(problems, nt, classes)
         }
-        Case::Browser { parts, boundary } => {
+        Case::Browser { parts, boundary, sep } => {
+            let colon = [": ", ":", ":\t", ":  "][*sep as usize % 4];
             let delim = format!("--{}", boundary);
             // domain: the boundary (the Content-Type parameter) does not occur in the data
             if contains_sub(&data_of(parts), boundary.as_bytes()) || boundary.is_empty() { return Verdict::Discard; }
             let mut bytes = vec![];
-            for p in parts { bytes.extend_from_slice(delim.as_bytes()); bytes.extend_from_slice(b"\r\n"); for (n, v) in &p.headers { bytes.extend_from_slice(format!("{}: {}\r\n", n, v).as_bytes()); } bytes.extend_from_slice(b"\r\n"); bytes.extend_from_slice(&p.body.0); bytes.extend_from_slice(b"\r\n"); }
+            for p in parts { bytes.extend_from_slice(delim.as_bytes()); bytes.extend_from_slice(b"\r\n"); for (n, v) in &p.headers { bytes.extend_from_slice(format!("{}{}{}\r\n", n, colon, v).as_bytes()); } bytes.extend_from_slice(b"\r\n"); bytes.extend_from_slice(&p.body.0); bytes.extend_from_slice(b"\r\n"); }
             bytes.extend_from_slice(delim.as_bytes()); bytes.extend_from_slice(b"--\r\n");
             let ct = format!("multipart/form-data; boundary={}", boundary);
             let b = match catch(|| FormMultipartData::extract_boundary(&ct)) { Err((m, loc)) => return Verdict::fail(format!("panic:extract_boundary:{}", m), loc), Ok(Err(e)) => return Verdict::fail("extract-boundary-rejects-browser-content-type", e), Ok(Ok(b)) => b };
             let (nt, mut classes) = classes_of(parts, boundary);
             classes.push("browser-shape");
+            if *sep % 4 != 0 { classes.push("header-colon-without-the-usual-blank"); }
             let problems = match catch(|| FormMultipartData::parse(&bytes, b.clone())) {
                 Err((m, loc)) => vec![(format!("panic:parse:{}", m), format!("panic at {}", loc))],
                 Ok(Err(e)) => vec![("parse-rejects-browser-body".to_string(), format!("Err({:?}) for boundary {:?}", e, boundary))],
@@ -272,7 +277,7 @@ pub fn case_from_fuzz_bytes(data: &[u8]) -> Case {
         parts.push(PartSpec { headers, body: Bytes(body) });
     }
     let browser = u.arbitrary::<bool>().unwrap_or(false);
-    if browser { Case::Browser { parts, boundary } } else { Case::RoundTrip { parts, boundary } }
+    if browser { Case::Browser { parts, boundary, sep: 0 } } else { Case::RoundTrip { parts, boundary } }
 }
 
 pub fn run(ctx: &Ctx) {
@@ -280,9 +285,9 @@ pub fn run(ctx: &Ctx) {
     let tree = match super::common::fixed_docroot() { Ok(t) => t, Err(e) => { ctx.inconclusive(&format!("docroot: {}", e)); return; } };
     let max_body = if ctx.quick() { 2048 } else { 65536 };
     ctx.prop("roundtrip", ctx.share(ctx.scale(24_000, 1_000_000)), (parts_strategy(max_body), boundary_strategy()).prop_map(|(parts, boundary)| Case::RoundTrip { parts, boundary }), |c| eval(ctx, c));
-    ctx.prop("browser", ctx.share(ctx.scale(12_000, 500_000)), (parts_strategy(max_body), boundary_strategy()).prop_map(|(parts, boundary)| Case::Browser { parts, boundary }), |c| eval(ctx, c));
+    ctx.prop("browser", ctx.share(ctx.scale(12_000, 500_000)), (parts_strategy(max_body), boundary_strategy(), prop_oneof![3 => Just(0u8), 1 => 1u8..4]).prop_map(|(parts, boundary, sep)| Case::Browser { parts, boundary, sep }), |c| eval(ctx, c));
     // near-miss delimiter lines inside bodies (the dash-insensitive match of earlier versions; any non-exact delimiter test)
-    ctx.prop("decoys", ctx.share(ctx.scale(12_000, 500_000)), (parts_strategy(128), boundary_strategy(), decoy_strategy(), any::<bool>()).prop_map(|(parts, boundary, d, browser)| { let parts = with_decoys(parts, &boundary, &d); if browser { Case::Browser { parts, boundary } } else { Case::RoundTrip { parts, boundary } } }), |c| eval(ctx, c));
+    ctx.prop("decoys", ctx.share(ctx.scale(12_000, 500_000)), (parts_strategy(128), boundary_strategy(), decoy_strategy(), any::<bool>()).prop_map(|(parts, boundary, d, browser)| { let parts = with_decoys(parts, &boundary, &d); if browser { Case::Browser { parts, boundary, sep: 0 } } else { Case::RoundTrip { parts, boundary } } }), |c| eval(ctx, c));
     ctx.prop("negatives", ctx.share(ctx.scale(12_000, 500_000)), (parts_strategy(256), boundary_strategy(), 0u8..5, any::<u16>()).prop_map(|(parts, boundary, what, cut)| Case::Negative { parts, boundary, what, cut }), |c| eval(ctx, c));
     let fields = proptest::collection::vec(("[a-z]{1,8}", "[!-~]([ -~]{0,20}[!-~])?|"), 1..6);
     ctx.prop("echo", ctx.share(ctx.scale(6_000, 200_000)), (fields, "[A-Za-z0-9]{1,30}").prop_map(|(fields, boundary)| Case::Echo { fields, boundary }), |c| eval(ctx, c));
